@@ -49,6 +49,9 @@ type Request struct {
 	ACRM      *string `json:"acrm"`
 	ACRH      *string `json:"acrh"`
 	PathClass string  `json:"path_class"`
+	// Origin2: a second Origin header line after the first (the first is the request's Origin for every reader that
+	// uses Header.Get; a response must never carry more than one Access-Control-Allow-Origin value)
+	Origin2 *string `json:"origin2,omitempty"`
 }
 
 type Case struct {
@@ -206,12 +209,15 @@ func Gen(t *rapid.T) Case {
 			}
 			q.Origin = str(rapid.SampledFrom(listed).Draw(t, "originListed"))
 		}
+		if q.Origin != nil && rapid.IntRange(0, 9).Draw(t, "origin2") == 0 {
+			q.Origin2 = str(rapid.SampledFrom([]string{"https://evil.example", "https://a.example", "https://b.example", "null", ""}).Draw(t, "origin2Val"))
+		}
 		switch rapid.IntRange(0, 9).Draw(t, "acrmMode") {
 		case 0, 1:
 		case 2:
 			q.ACRM = str(rapid.SampledFrom([]string{"BOGUS", "get", "", "G E T"}).Draw(t, "acrmJunk"))
 		case 3, 4:
-			q.ACRM = str(rapid.SampledFrom([]string{"GET", "POST", "DELETE", "PUT", "PATCH", "HEAD", "OPTIONS"}).Draw(t, "acrm"))
+			q.ACRM = str(rapid.SampledFrom([]string{"GET", "POST", "DELETE", "PUT", "PATCH", "HEAD", "OPTIONS", "TRACE", "CONNECT"}).Draw(t, "acrm"))
 		default:
 			ms := ref.AnyMethods
 			if rt != nil && len(rt.Methods) > 0 {
@@ -269,7 +275,17 @@ type World struct {
 }
 
 func corsOpt(c Config) mux.Option {
-	return mux.WithCORS(append([]string{}, c.Origins...), append([]string{}, c.AllowHeaders...), append([]string{}, c.Exposed...), c.MaxAge, c.Cred)
+	// every router gets lists of its own; an empty list is passed as nil, the way a caller writes it
+	own := func(x []string) []string {
+		if len(x) == 0 {
+			return nil
+		}
+		return append([]string{}, x...)
+	}
+	if len(c.Origins) == 0 && len(c.AllowHeaders) == 0 && len(c.Exposed) == 0 && c.MaxAge == 0 && !c.Cred {
+		return mux.WithDenyCORS() // the documented spelling of "no CORS at all"
+	}
+	return mux.WithCORS(own(c.Origins), own(c.AllowHeaders), own(c.Exposed), c.MaxAge, c.Cred)
 }
 
 // sharedOpts renders the subject's and the sibling's CORS options from common arrays: the subject's
@@ -380,6 +396,9 @@ func (w *World) serve(h http.Handler, q Request) *rig.Outcome {
 	hdr := map[string][]string{}
 	if q.Origin != nil {
 		hdr["Origin"] = []string{*q.Origin}
+		if q.Origin2 != nil {
+			hdr["Origin"] = append(hdr["Origin"], *q.Origin2)
+		}
 	}
 	if q.ACRM != nil {
 		hdr["Access-Control-Request-Method"] = []string{*q.ACRM}
